@@ -71,7 +71,7 @@ def compare(ctx, sess, keys, x, y, how, same=False):
     ctx.count('pair:%s' % ('equal' if d_real is None else 'different'))
     if same and d_real is not None:
         eo = semantics.env_of_path(keys, d_real, markers.DEFAULT_ENV)
-        ctx.failure('the two sides of a boolean law, built with and / or / negate, denote different functions (and are %s)' % ('==' if eq else 'not =='),
+        ctx.failure('the two sides of a boolean law (or two texts with the same reading) denote different functions (and are %s)' % ('==' if eq else 'not =='),
                     dict(how, distinguishing=str(eo)))
         return
     if eq and d_real is not None:
@@ -110,6 +110,19 @@ def run(ctx):
                 ("os_name not in 'posix nt'", "os_name not in 'nt posix'"), ("extra == 'a'", "extra == 'b'"), ("extra != 'a'", "extra != 'b'"),
                 ("'win' in sys_platform", "'win' in os_name"), ("os_name == 'a'", "os_name == 'b'"), ("python_version >= '3.8'", "python_version >= '3.9'"),
                 ("implementation_version == '3.8'", "python_full_version == '3.8'")]
+        # a list of versions is the disjunction of its members, whatever pre / post / dev / epoch / local decoration a member carries
+        SAME_TEXTS = []
+        for k in ('implementation_version', 'python_full_version'):
+            for lit in ('3.9rc1', '3.9.0b1', '3.9.post1', '3.9.dev0', '1!3.9', '3.9+local', '3.9.0'):
+                SAME_TEXTS += [("%s in '%s'" % (k, lit), "%s == '%s'" % (k, lit)), ("%s not in '3.11 %s'" % (k, lit), "%s != '3.11' and %s != '%s'" % (k, k, lit)),
+                         ("%s in '%s 3.11'" % (k, lit), "%s == '%s' or %s == '3.11'" % (k, lit, k)), ("%s in '%s' or %s != '%s'" % (k, lit, k, lit), "os_name == 'x' or os_name != 'x'")]
+        # (two texts with the same PEP 508 reading: they must denote the same function, hence be the same marker)
+        for ta, tb in SAME_TEXTS:
+            x, y = sess.parse(ta)[0], sess.parse(tb)[0]
+            if x is None or y is None:
+                continue
+            ctx.evaluations += 1
+            compare(ctx, sess, keys, x, y, {'lhs': {'parse': ta}, 'rhs': {'parse': tb}}, same=True)
         for ta, tb in NEAR:
             for wrap in ('%s', "%s and sys_platform == 'x'", "sys_platform == 'x' or %s"):
                 x, y = sess.parse(wrap % ta)[0], sess.parse(wrap % tb)[0]
